@@ -137,9 +137,43 @@ def case(ctx, i, rec):
                       kinds=[k1, k2])
         return
     rec.nontrivial = True
-    devs = pairs.compare(rec, a, b, label=method)
+    # mutations are matched by (position, node, order of appearance): re-sorting the tables of the
+    # perturbed input may list the mutations of one site in another order
+    import collections as _c
+    pa = ts.sites_position[ts.mutations_site] if ts.num_mutations else np.array([])
+    pb = ts2.sites_position[ts2.mutations_site] if ts2.num_mutations else np.array([])
+    slots = _c.defaultdict(list)
+    for m2 in range(ts2.num_mutations):
+        slots[(float(pb[m2]), int(ts2.mutations_node[m2]))].append(m2)
+    mut_map = np.full(ts.num_mutations, -1)
+    for m1 in range(ts.num_mutations):
+        lst = slots.get((float(pa[m1]), int(ts.mutations_node[m1])))
+        if lst:
+            mut_map[m1] = lst.pop(0)
+    if np.any(mut_map < 0) or ts.num_mutations != ts2.num_mutations:
+        rec.count("harness:mutation_matching_failed")
+        return
+    if not np.array_equal(mut_map, np.arange(ts.num_mutations)):
+        rec.count("pairs_with_reordered_mutation_rows")
+    devs = pairs.compare(rec, a, b, label=method, mut_map=mut_map)
+    # mutation *times* live in the output tables, whose rows date() may have re-sorted within a
+    # site (C02 finding): match output rows by (position, output node, order)
+    oa = a.ts.sites_position[a.ts.mutations_site] if a.ts.num_mutations else np.array([])
+    ob = b.ts.sites_position[b.ts.mutations_site] if b.ts.num_mutations else np.array([])
+    slots = _c.defaultdict(list)
+    for m2 in range(b.ts.num_mutations):
+        slots[(float(ob[m2]), int(b.ts.mutations_node[m2]))].append(m2)
+    omap = np.full(a.ts.num_mutations, -1)
+    for m1 in range(a.ts.num_mutations):
+        lst = slots.get((float(oa[m1]), int(a.ts.mutations_node[m1])))
+        if lst:
+            omap[m1] = lst.pop(0)
+    if np.any(omap < 0):
+        devs["mut_node_placement"] = np.inf
+    else:
+        devs["mut_time"] = common.rel_err(a.mut_times, b.mut_times[omap])
     worst = max(devs.values())
-    if worst != 0.0 or not np.array_equal(a.mut_nodes, b.mut_nodes):
+    if worst != 0.0:
         which = max(devs, key=devs.get)
         rec.violation(f"{method}:depends-on:{k1}" if k1 == k2 else f"{method}:depends-on:{k1}+{k2}",
                       f"changing {k1},{k2} changed {which} by {worst:.3g} (must be bit-identical)",
